@@ -66,6 +66,7 @@ const (
 	bkQuiesce
 	bkWaitGroup
 	bkPark
+	bkSend
 )
 
 // Outcome of a Run.
@@ -113,6 +114,7 @@ type Task struct {
 	blockAddr uintptr
 	wakeAt    int64
 	selChans  []reflect.Value
+	gid       uint64 // id of the goroutine that runs the task
 	selIndex  int
 	// selPeekOnly: the task waits in Recv: wake it when the channel is ready
 	// but leave the value for the task to receive itself
@@ -181,6 +183,7 @@ type Sim struct {
 	timers   []*simTimer
 	timerSeq uint64
 	pollSel  bool
+	pend     []*pendSend // sends waiting for a simulated receiver
 	SimTime  int64 // total virtual time advanced
 
 	strat   strategy
@@ -322,6 +325,7 @@ func taskMain(s *Sim, t *Task) {
 	}
 	defer taskExit(s, t)
 	t.started = true
+	t.gid = goid()
 	t.fn()
 }
 
@@ -521,6 +525,8 @@ func (t *Task) BlockedOn() string {
 			return "waitgroup"
 		case bkPark:
 			return "park"
+		case bkSend:
+			return "send"
 		}
 	}
 	return ""
@@ -1206,7 +1212,7 @@ func (s *Sim) sel(chans []interface{}) int {
 func (s *Sim) selPoll(t *Task) bool {
 	if t.selPeekOnly {
 		for _, c := range t.selChans {
-			if c.IsValid() && !c.IsNil() && (c.Len() > 0 || chanClosed(c)) {
+			if c.IsValid() && !c.IsNil() && (c.Len() > 0 || s.hasPend(c.Pointer()) || chanClosed(c)) {
 				if t.state == stBlocked {
 					t.state = stRunnable
 					t.bk = bkNone
@@ -1220,7 +1226,7 @@ func (s *Sim) selPoll(t *Task) bool {
 		if !c.IsValid() || c.IsNil() {
 			continue
 		}
-		if _, ok := tryRecv(c); ok {
+		if v, ok := s.tryRecvPend(c); ok || v.IsValid() {
 			t.selIndex = i
 			if t.state == stBlocked {
 				t.state = stRunnable
@@ -1239,7 +1245,7 @@ func (s *Sim) selPoll(t *Task) bool {
 //go:norace
 func (s *Sim) selReadyPeek(t *Task) bool {
 	for _, c := range t.selChans {
-		if c.IsValid() && !c.IsNil() && c.Len() > 0 {
+		if c.IsValid() && !c.IsNil() && (c.Len() > 0 || s.hasPend(c.Pointer())) {
 			return true
 		}
 	}
@@ -1346,4 +1352,28 @@ func chanClosed(c reflect.Value) bool {
 		{Dir: reflect.SelectDefault},
 	})
 	return chosen == 0 && !ok
+}
+
+// goid returns the id of the calling goroutine (parsed from the stack header;
+// used only to tell a task from a goroutine outside the simulation, e.g. the
+// finalizer goroutine, in Send).
+func goid() uint64 {
+	var buf [40]byte
+	n := goruntime.Stack(buf[:], false)
+	// "goroutine 123 ["
+	var id uint64
+	for i := len("goroutine "); i < n; i++ {
+		c := buf[i]
+		if c < '0' || c > '9' {
+			break
+		}
+		id = id*10 + uint64(c-'0')
+	}
+	return id
+}
+
+//go:norace
+func (s *Sim) onTaskGoroutine() bool {
+	t := s.cur
+	return t != nil && t.gid == goid()
 }
